@@ -12,7 +12,7 @@ from auditsim import repo as R
 from auditsim import world as W
 from auditsim import gen as G
 from auditsim.driver import AuditRun
-from auditsim.log import Outcome, same
+from auditsim.log import Outcome, same, tight
 
 PROP = "C09"
 TIERS = {
@@ -26,7 +26,7 @@ RULE = ("one run = one seeded election with 1-4 contests (different risk limits,
         "distinct event-log digest")
 ASSUMPTIONS = [
     "reference p-values come from a clone of the assertion's configured test (same class, same attributes, fresh object) run on that assertion's data",
-    "when the reference raises for some assertion, set_p_values must raise the same exception type (and nothing further is judged in that run)",
+    "when the reference raises for some assertion, set_p_values must raise too (any type; nothing further is judged in that run); p-values compared to 1e-12 relative",
     "a contest one of whose p-values is NaN is exempt from the 'largest p-value' comparison (NaN is C11's business); completion still requires every p-value <= its limit",
 ]
 COMPONENTS = {
@@ -36,10 +36,27 @@ COMPONENTS = {
 }
 PROBES = ["some contest confirmed while another is not", "audit complete", "dry run then reset", "reset between rounds",
           "assertion confirmed with p exactly at limit", "contests with different limits", "misconfiguration injected",
-          "reference test raised"]
+          "reference test raised", "contest with no assertions (uncontested)"]
 
 MISCONFIG = ["risk-zero", "risk-negative", "risk-above-half", "winner-not-candidate", "winner-count", "too-many-winners",
              "irv-two-winners", "unknown-choice-function", "negative-error-rate"]
+
+
+def _variants(rng, case):
+    """margins revised between rounds; one contest of a comparison audit audited by polling"""
+    w = case["world"]
+    if case.get("margins_via_tally"):
+        case["tally_rules"] = rng.chance(0.5)
+        for r, rnd in enumerate(case["rounds"]):
+            rnd["remargin"] = bool(r > 0 and rng.chance(0.35))
+    elif w["audit_type"] == W.COMPARISON and len(w["contests"]) >= 2 and rng.chance(0.15):
+        cid = rng.pick(sorted(w["contests"]))
+        cs = w["contests"][cid]
+        cs["audit_type"] = W.POLLING
+        cs.update(W.gen_test(rng, W.POLLING))
+        cs["cards"] = None
+        case["mixed"] = True
+    return case
 
 
 def generate(rng, tier):
@@ -52,6 +69,7 @@ def generate(rng, tier):
     tally_ok = (case["world"]["audit_type"] != W.POLLING and
                 all(c["choice_function"] in (W.PLURALITY, W.APPROVAL) for c in case["world"]["contests"].values()))
     case["margins_via_tally"] = bool(tally_ok and rng.chance(0.5))
+    _variants(rng, case)
     case["misconfig"] = [{"kind": rng.pick(MISCONFIG), "contest": rng.pick(sorted(case["world"]["contests"]))}
                          for _ in range(rng.randint(0, 3))]
     return case
@@ -106,7 +124,7 @@ class Model:
                 ps.append(p)
                 if r is None:
                     continue
-                if not same(p, r[0]) or len(h) != len(r[1]) or any(not same(a, b) for a, b in zip(h, r[1])):
+                if not tight(p, r[0]) or len(h) != len(r[1]) or any(not tight(a, b) for a, b in zip(h, r[1])):
                     out.violate("C09.a", f"{where}/{run.world['contests'][cid]['test']}",
                                 f"{cid}/{key}: recorded p={p!r} (history length {len(h)}), its own test on its own data gives "
                                 f"p={r[0]!r} (history length {len(r[1])})")
@@ -120,6 +138,9 @@ class Model:
                 self.prev_proved[(cid, key)] = bool(asn.proved)
                 if con.p_values.get(key) is None or not same(con.p_values[key], p) or bool(con.proved.get(key)) != bool(asn.proved):
                     out.violate("C09.b", "contest-dicts", f"{cid}: p_values/proved dictionaries disagree with assertion {key}")
+            if not ps:
+                self.out.probe("contest with no assertions (uncontested)")
+                continue  # nothing to assert: no largest p-value is defined; completion treats it as vacuously met
             if not any(math.isnan(p) for p in ps):
                 if not same(con.max_p, max(ps)):
                     out.violate("C09.b", "contest-max", f"{cid}: measured risk {con.max_p!r}, largest assertion p-value {max(ps)!r} of {ps}")
@@ -181,9 +202,9 @@ class Model:
                 ret = ns.Assertion.set_p_values(contests=run.contests, mvr_sample=mv, cvr_sample=cv)
         except Exception as e:
             out.raised("set_p_values(dry)", e)
-            if exc != type(e).__name__:
+            if exc is None:
                 out.violate("C09.a", f"dry/raised-{type(e).__name__}", f"set_p_values raised {e!r}; the assertions' own tests "
-                                                                       f"{'raise ' + exc if exc else 'do not raise'} on the same data")
+                                                                       f"do not raise on the same data")
             return
         if exc is not None:
             out.violate("C09.a", "dry/swallowed", f"an assertion's own test raises {exc} on its data but set_p_values returned")
@@ -203,10 +224,9 @@ class Model:
 
     def on_exception(self, run, step, e):
         if step == "set_p_values":
-            if self.ref_exc != type(e).__name__:
+            if self.ref_exc is None:
                 self.out.violate("C09.a", f"round/raised-{type(e).__name__}",
-                                 f"set_p_values raised {e!r}; the assertions' own tests "
-                                 f"{'raise ' + self.ref_exc if self.ref_exc else 'do not raise'} on the same data")
+                                 f"set_p_values raised {e!r}; the assertions' own tests do not raise on the same data")
         if step == "check_audit_parameters":
             self.out.violate("C09.e", f"rejected-wellformed/{type(e).__name__}", f"a well-formed configuration was refused: {e!r}")
 
